@@ -212,12 +212,13 @@ CHECKS["C08"] = dict(
          "(m = 0), l^2+2m-1 (cos) and l^2+2m (sin) hold sqrt((2l+1)/4pi) [sqrt 2 / F(l,m)] P_l^m(phi) {cos, sin}(m theta) with P and F defined by "
          "the standard recurrences: the code computes exactly that sequence in the documented order and normalisation, every row written once, "
          "(l_max+1)^2 rows. convert_cart_to_sph: radius, azimuth, polar angle relative to the centre (0 at the centre), validation, and the "
-         "lemma that these formulas invert the spherical parametrisation. Values against a 50-digit oracle (incl. poles, angles outside the "
-         "principal range), agreement of both implementations, the addition theorem, derivatives and solid harmonics are decided by the bounded "
+         "lemma that these formulas invert the spherical parametrisation; solid_harmonics: every row of degree l is sqrt(4pi/(2l+1)) r^l times "
+         "the harmonic of that row (ragged sum of lists with ghost offsets l^2). Values against a 50-digit oracle (incl. poles, angles outside the "
+         "principal range), agreement of both implementations, the addition theorem and the derivative routine are decided by the bounded "
          "layer only; recorded finding: |sin phi|^m in the scipy variant and the phi-derivative.",
     design="8/C08",
     note=TRUST + "that the three-term/diagonal recurrences generate the associated Legendre functions and F(l,m)^2 = (l+m)!/(l-m)! is a textbook fact, "
-         "not proved; sin/cos/sqrt/arctan2/arccos by their defining facts; derivative routine, scipy variant and solid_harmonics bounded only.",
+         "not proved; sin/cos/sqrt/arctan2/arccos by their defining facts; derivative routine and scipy variant bounded only.",
     technique="contract-based deductive verification: AST symbolic execution with nested loop contracts (functional cut points), lemma chaining between invariant conjuncts, z3; bounded multiprecision oracle as labelled stand-in")
 CHECKS["C09"] = dict(
     category="proof",
